@@ -25,6 +25,8 @@ CONSTANTS N,          \* callers
           MaxFaults,
           MaxRogue,   \* misbehaving peer replies allowed
           FixUnknown,
+          OfferWatchesClosed, \* TRUE (the code): a caller still waiting to hand its request to the handle loop also
+                          \* watches t.closed; FALSE: it polls it once before offering (why-it-matters configuration)
           CtxWriteCloses  \* FALSE (the code): a request whose own context has already ended when the handle loop
                           \* writes it fails alone (WriteFcall returns ctx.Err()); TRUE: the loop also shuts the
                           \* transport down on such a write error (why-it-matters configuration)
@@ -42,9 +44,12 @@ VARIABLES c,        \* caller -> [pc, tag, res]   pc: idle | offer | wait | ret 
           got,      \* ghost: caller -> src of the reply it was handed (0 none)
           cx,       \* caller -> its own context has ended (the caller may not have noticed yet)
           selfclosed, \* ghost: the transport shut itself down without a connection failure / session cancel
+          hw,       \* the handle loop is blocked in the write of this caller's request (0: it is not) - the loop writes
+                    \* requests itself, so while the peer does not read, it takes neither requests nor replies
+          stalled,  \* the peer has stopped reading
           act       \* output only: label of the last step
-vars == <<c, outst, hint, hl, rd, net, peer, seen, down, faults, rogue, got, cx, selfclosed, act>>
-View == <<c, outst, hint, hl, rd, net, peer, seen, down, faults, rogue, got, cx, selfclosed>>
+vars == <<c, outst, hint, hl, rd, net, peer, seen, down, faults, rogue, got, cx, selfclosed, hw, stalled, act>>
+View == <<c, outst, hint, hl, rd, net, peer, seen, down, faults, rogue, got, cx, selfclosed, hw, stalled>>
 A(a, i, k) == [a |-> a, i |-> i, k |-> k]
 
 Callers == 1..N
@@ -63,18 +68,18 @@ Init == /\ c = [i \in Callers |-> [pc |-> "idle", tag |-> NOTAG, res |-> ""]]
         /\ outst = [t \in Tags |-> 0] /\ hint = 0 /\ hl = "run"
         /\ rd = [pc |-> "read", tag |-> NOTAG, kind |-> "none", src |-> 0]
         /\ net = <<>> /\ peer = [t \in Tags |-> 0] /\ seen = {} /\ down = FALSE /\ faults = 0 /\ rogue = 0
-        /\ got = [i \in Callers |-> 0] /\ cx = [i \in Callers |-> FALSE] /\ selfclosed = FALSE /\ act = A("init", 0, "")
+        /\ got = [i \in Callers |-> 0] /\ cx = [i \in Callers |-> FALSE] /\ selfclosed = FALSE /\ hw = 0 /\ stalled = FALSE /\ act = A("init", 0, "")
 
 Closed == hl # "run"          \* t.closed is closed when handle returns
 
 Invoke(i) == /\ c[i].pc = "idle"
              /\ c' = [c EXCEPT ![i].pc = "offer"]
-             /\ UNCHANGED <<outst, hint, hl, rd, net, peer, seen, down, faults, rogue, got, cx, selfclosed>>
+             /\ UNCHANGED <<outst, hint, hl, rd, net, peer, seen, down, faults, rogue, got, cx, selfclosed, hw, stalled>>
              /\ act' = A("invoke", i, "")
 
 \* handle takes the request, allocates a tag and writes it (one critical section of the loop)
 Dispatch(i) ==
-  /\ hl = "run" /\ c[i].pc = "offer"
+  /\ hl = "run" /\ hw = 0 /\ c[i].pc = "offer"
   /\ LET t == AllocTag(outst, hint) IN
      IF t = NOTAG THEN   \* tag pool depleted: the call fails
        /\ c' = [c EXCEPT ![i] = [pc |-> "ret", tag |-> NOTAG, res |-> "err"]]
@@ -86,6 +91,11 @@ Dispatch(i) ==
      ELSE IF down THEN   \* WriteFcall fails: entry removed, error to the caller
        /\ c' = [c EXCEPT ![i] = [pc |-> "ret", tag |-> t, res |-> "closed"]]
        /\ hint' = t /\ UNCHANGED <<outst, peer, seen>>
+     ELSE IF stalled THEN   \* the peer is not reading: the write blocks, the loop with it (WriteDone continues)
+       /\ outst' = [outst EXCEPT ![t] = i]
+       /\ hint' = t
+       /\ c' = [c EXCEPT ![i].pc = "wait", ![i].tag = t]
+       /\ UNCHANGED <<peer, seen>>
      ELSE
        /\ outst' = [outst EXCEPT ![t] = i]
        /\ hint' = t
@@ -95,42 +105,68 @@ Dispatch(i) ==
   /\ LET ctxwrite == cx[i] /\ AllocTag(outst, hint) # NOTAG IN
      /\ hl' = IF CtxWriteCloses /\ ctxwrite THEN "exited" ELSE hl
      /\ selfclosed' = (selfclosed \/ (CtxWriteCloses /\ ctxwrite /\ ~down))
-  /\ UNCHANGED <<rd, net, down, faults, rogue, got, cx>>
+  /\ hw' = IF AllocTag(outst, hint) # NOTAG /\ ~cx[i] /\ ~down /\ stalled THEN i ELSE 0
+  /\ UNCHANGED <<rd, net, down, faults, rogue, got, cx, stalled>>
   /\ act' = A("dispatch", i, "")
+
+\* the blocked request write ends: the peer reads on (the request reaches it), or the connection has failed
+\* (the write fails: the table entry is removed and the error handed to the caller, if it still waits)
+WriteDone ==
+  /\ hl = "run" /\ hw # 0 /\ (~stalled \/ down)
+  /\ LET i == hw
+         t == c[i].tag IN
+     IF down THEN
+       /\ outst' = [outst EXCEPT ![t] = 0]
+       /\ c' = IF c[i].pc = "wait" THEN [c EXCEPT ![i].pc = "ret", ![i].res = "closed"] ELSE c
+       /\ UNCHANGED <<peer, seen>>
+     ELSE
+       /\ seen' = IF peer[t] # 0 THEN seen \cup {t} ELSE seen
+       /\ peer' = [peer EXCEPT ![t] = i]
+       /\ UNCHANGED <<c, outst>>
+  /\ hw' = 0
+  /\ UNCHANGED <<hint, hl, rd, net, down, faults, rogue, got, cx, selfclosed, stalled>>
+  /\ act' = A("hl.written", hw, "")
+PeerStall == /\ ~stalled /\ ~down /\ faults < MaxFaults
+             /\ stalled' = TRUE /\ faults' = faults + 1
+             /\ UNCHANGED <<c, outst, hint, hl, rd, net, peer, seen, down, rogue, got, cx, selfclosed, hw>>
+             /\ act' = A("stall", 0, "")
+PeerResume == /\ stalled /\ stalled' = FALSE
+              /\ UNCHANGED <<c, outst, hint, hl, rd, net, peer, seen, down, faults, rogue, got, cx, selfclosed, hw>>
+              /\ act' = A("resume", 0, "")
 
 \* the peer answers a request it holds (any order); kind: ok | err | badtype
 PeerReply(t, k) ==
   /\ peer[t] # 0 /\ ~down
   /\ net' = Append(net, [tag |-> t, kind |-> k, src |-> peer[t]])
   /\ peer' = [peer EXCEPT ![t] = 0]
-  /\ UNCHANGED <<c, outst, hint, hl, rd, seen, down, faults, rogue, got, cx, selfclosed>>
+  /\ UNCHANGED <<c, outst, hint, hl, rd, seen, down, faults, rogue, got, cx, selfclosed, hw, stalled>>
   /\ act' = A("reply", peer[t], k)
 \* misbehaviour: a reply with a tag it does not hold (never seen, or already answered)
 PeerRogue(t) ==
   /\ rogue < MaxRogue /\ peer[t] = 0 /\ ~down
   /\ rogue' = rogue + 1
   /\ net' = Append(net, [tag |-> t, kind |-> "ok", src |-> 0])
-  /\ UNCHANGED <<c, outst, hint, hl, rd, peer, seen, down, faults, got, cx, selfclosed>>
+  /\ UNCHANGED <<c, outst, hint, hl, rd, peer, seen, down, faults, got, cx, selfclosed, hw, stalled>>
   /\ act' = A("rogue", 0, "")
 
 ReaderRead == /\ rd.pc = "read" /\ net # <<>> /\ ~down
               /\ rd' = [pc |-> "offer", tag |-> Head(net).tag, kind |-> Head(net).kind, src |-> Head(net).src]
               /\ net' = Tail(net)
-              /\ UNCHANGED <<c, outst, hint, hl, peer, seen, down, faults, rogue, got, cx, selfclosed>>
+              /\ UNCHANGED <<c, outst, hint, hl, peer, seen, down, faults, rogue, got, cx, selfclosed, hw, stalled>>
               /\ act' = A("rd.read", 0, "")
 \* read error / EOF: the reader calls t.close() -> shutdown -> handle returns
 ReaderFail == /\ rd.pc = "read" /\ down
               /\ rd' = [rd EXCEPT !.pc = "exited"]
-              /\ UNCHANGED <<c, outst, hint, hl, net, peer, seen, down, faults, rogue, got, cx, selfclosed>>
+              /\ UNCHANGED <<c, outst, hint, hl, net, peer, seen, down, faults, rogue, got, cx, selfclosed, hw, stalled>>
               /\ act' = A("rd.fail", 0, "")
 ReaderAbort == /\ rd.pc = "offer" /\ (Closed \/ down)
                /\ rd' = [rd EXCEPT !.pc = "exited"]
-               /\ UNCHANGED <<c, outst, hint, hl, net, peer, seen, down, faults, rogue, got, cx, selfclosed>>
+               /\ UNCHANGED <<c, outst, hint, hl, net, peer, seen, down, faults, rogue, got, cx, selfclosed, hw, stalled>>
                /\ act' = A("rd.abort", 0, "")
 
 \* handle receives a reply from the reader
 Deliver ==
-  /\ hl = "run" /\ rd.pc = "offer"
+  /\ hl = "run" /\ hw = 0 /\ rd.pc = "offer"
   /\ rd' = [pc |-> "read", tag |-> NOTAG, kind |-> "none", src |-> 0]
   /\ LET t == rd.tag IN
      IF outst[t] = 0 THEN
@@ -144,44 +180,45 @@ Deliver ==
                                            res |-> CASE rd.kind = "ok" -> "ok" [] rd.kind = "err" -> "err" [] OTHER -> "badtype"]]
                  /\ got' = [got EXCEPT ![i] = rd.src]
             ELSE UNCHANGED <<c, got>>   \* abandoned call: the reply is dropped
-  /\ UNCHANGED <<hint, net, peer, seen, down, faults, rogue, cx, selfclosed>>
+  /\ UNCHANGED <<hint, net, peer, seen, down, faults, rogue, cx, selfclosed, hw, stalled>>
   /\ act' = A("deliver", IF outst[rd.tag] # 0 THEN outst[rd.tag] ELSE 0, "")
 
 \* handle sees shutdown (reader exited) or the session context
-HandleExit == /\ hl = "run" /\ (rd.pc = "exited" \/ down)
+HandleExit == /\ hl = "run" /\ hw = 0 /\ (rd.pc = "exited" \/ down)
               /\ hl' = "exited"
-              /\ UNCHANGED <<c, outst, hint, rd, net, peer, seen, down, faults, rogue, got, cx, selfclosed>>
+              /\ UNCHANGED <<c, outst, hint, rd, net, peer, seen, down, faults, rogue, got, cx, selfclosed, hw, stalled>>
               /\ act' = A("hl.exit", 0, "")
 
 \* a caller blocked in send() sees t.closed
-CallerClosed(i) == /\ c[i].pc \in {"offer", "wait"} /\ Closed
+CallerClosed(i) == /\ c[i].pc \in (IF OfferWatchesClosed THEN {"offer", "wait"} ELSE {"wait"}) /\ Closed
                    /\ c' = [c EXCEPT ![i].pc = "ret", ![i].res = "closed"]
-                   /\ UNCHANGED <<outst, hint, hl, rd, net, peer, seen, down, faults, rogue, got, cx, selfclosed>>
+                   /\ UNCHANGED <<outst, hint, hl, rd, net, peer, seen, down, faults, rogue, got, cx, selfclosed, hw, stalled>>
                    /\ act' = A("closed", i, "")
 \* the call's own context ends (cancel or deadline) ...
 CallCtxDone(i) == /\ c[i].pc \in {"offer", "wait"} /\ ~cx[i] /\ faults < MaxFaults
                   /\ faults' = faults + 1
                   /\ cx' = [cx EXCEPT ![i] = TRUE]
-                  /\ UNCHANGED <<c, outst, hint, hl, rd, net, peer, seen, down, rogue, got, selfclosed>>
+                  /\ UNCHANGED <<c, outst, hint, hl, rd, net, peer, seen, down, rogue, got, selfclosed, hw, stalled>>
                   /\ act' = A("cancel", i, "")
 \* ... and the caller, blocked in one of send()'s two selects, notices: it returns; its tag (if it has one)
 \* stays outstanding until answered.  While still offering, the handle loop may take the request instead
 \* (Dispatch with cx[i]): Go's select picks among ready cases at random.
 CallCtxRet(i) == /\ c[i].pc \in {"offer", "wait"} /\ cx[i]
                  /\ c' = [c EXCEPT ![i].pc = "ret", ![i].res = "ctx"]
-                 /\ UNCHANGED <<outst, hint, hl, rd, net, peer, seen, down, faults, rogue, got, cx, selfclosed>>
+                 /\ UNCHANGED <<outst, hint, hl, rd, net, peer, seen, down, faults, rogue, got, cx, selfclosed, hw, stalled>>
                  /\ act' = A("ctxret", i, "")
 \* connection failure or session cancel
 ConnFail == /\ ~down /\ faults < MaxFaults
             /\ faults' = faults + 1 /\ down' = TRUE
-            /\ UNCHANGED <<c, outst, hint, hl, rd, net, peer, seen, rogue, got, cx, selfclosed>>
+            /\ UNCHANGED <<c, outst, hint, hl, rd, net, peer, seen, rogue, got, cx, selfclosed, hw, stalled>>
             /\ act' = A("fault", 0, "")
 
 Next == \/ \E i \in Callers : Invoke(i) \/ Dispatch(i) \/ CallerClosed(i) \/ CallCtxDone(i) \/ CallCtxRet(i)
         \/ \E t \in Tags : (\E k \in {"ok", "err", "badtype"} : PeerReply(t, k)) \/ PeerRogue(t)
         \/ ReaderRead \/ ReaderFail \/ ReaderAbort \/ Deliver \/ HandleExit \/ ConnFail
+        \/ WriteDone \/ PeerStall \/ PeerResume
 Client == \/ \E i \in Callers : Dispatch(i) \/ CallerClosed(i) \/ CallCtxRet(i)
-          \/ ReaderRead \/ ReaderFail \/ ReaderAbort \/ Deliver \/ HandleExit
+          \/ ReaderRead \/ ReaderFail \/ ReaderAbort \/ Deliver \/ HandleExit \/ WriteDone
 Spec == Init /\ [][Next]_vars
 FairSpec == Spec /\ WF_vars(Client)
 
